@@ -1165,7 +1165,10 @@ def run(args):
             evaluations += 2
             bump("diff:runs", 2)
             bump("diff:repeat_files_compared", len(f1))
-            if r1["sha"] != r2["sha"] or r1["sha"] != b0["sha"]:
+            # determinism: the two repetitions and the run of the same configuration in the loop above must agree; the comparison of
+            # that configuration with the BASELINE was made (and attributed) in the loop - repeating it here without the attribution
+            # reported the known -SPLITBYTE rejection a second time as an unattributed violation (false alarm at seed 5)
+            if r1["sha"] != r2["sha"] or r1["sha"] != outs[rich[0]]["sha"]:
                 spec_fail.append(dict(tag="repeat:" + name, sig=None, why="repeated run changes the code file", source=asm, variant=dict(argv=r1["argv"])))
             for ext in sorted(set(f1) | set(f2)):
                 if f1.get(ext) != f2.get(ext) and ext not in (".lst", ".map", ".inc"):
